@@ -37,6 +37,7 @@ def run(ctx, sess):
     ctx.rule('C03.p', 'repair places every block by its own sample id: in the level-0 walk of the FSR rebuild a data chunk is added to the rebuilt level 1 only behind a compare of its header timestamp with the id expected after the previous chunk (blocks that were left out leave no chunk in the chain; a chunk that follows them cannot be placed and ends the signal)')
     ctx.rule('C03.q', 'repair validates a copied chunk against that chunk: a compare with the length of the read buffer (self->buf->length) that involves data copied out of the buffer earlier has no chunk read between the copy and the compare - after another read the buffer describes a different chunk (an index was checked against the length of the summary that follows it, and a file cut inside jls_wr_close could not be opened)')
     ctx.rule('C03.r', 'pointer repair ends every chain it walked: each local copy of a chunk header that jls_track_repair_pointers keeps as the last good chunk of a chain (the index, its summary, the data chunk) has its item_next cleared and is rewritten - none is left pointing past the cut')
+    ctx.rule('C03.s', 'repair continues behind blocks that were left out: the offset at which the level-0 walk of the FSR rebuild starts is taken from a level-1 index entry, and an entry is 0 for a block that was left out - the walk goes back to the last entry that names a stored block, and the sample id it expects next is the end of what the stored level-1 pair covers, not the end of that block (else complete blocks that follow left-out ones are dropped although they are on disk)')
     ctx.rule('C03.n', 'repair copies a chunk into a typed buffer only after checking what it is: every memcpy of the bytes just read into a level / sample buffer is preceded by a compare of the chunk tag and by a compare of the length with the capacity of the destination')
     ctx.rule('C03.d', 'truncation is reachable only from the repair branch of jls_rd_open')
     ra(ctx, P)
@@ -54,6 +55,7 @@ def run(ctx, sess):
     repair_continuity_rule(ctx, P, 'C03.p')
     repair_length_rule(ctx, P, 'C03.q')
     repair_chains_rule(ctx, P, 'C03.r')
+    repair_omitted_tail_rule(ctx, P, 'C03.s')
     end_at_end_rule(ctx, P)
     from .c14 import head_table_rule, WRITER_ROOT_PREFIXES
     roots = sorted(f.name for f in P.all_functions() if f.api and f.name.startswith(WRITER_ROOT_PREFIXES))
@@ -768,3 +770,109 @@ def repair_chains_rule(ctx, P, rule):
         ctx.ob(rule, ok, fn.name, 'end of the chain kept in %s' % name, (clears[0] if clears else fn).where() if hasattr((clears[0] if clears else fn), 'where') else fn.where(),
                'item_next cleared and the header rewritten' if ok else
                'the last good chunk kept in %s is never cut off (%d clearing stores, %d rewrites): after a truncation its item_next still names an offset past the end of the file, or a chunk that the repair writes there later' % (name, len(clears), len(writes)))
+        # the cut depends on nothing but "the chain ended here" and "there is a last good chunk": a further condition (the
+        # descend offset taken from the last index entry, which is 0 for a block that was left out) leaves the link in place
+        from ..graph import control_deps_transitive, loops
+        loop_heads = set(loops(fn).keys())
+        cursors = set(strip_casts(ev.store_parts()[0]).get('name') for ev in fn.stores() if ev.store_parts()[1] is not None and
+                      strip_casts(ev.store_parts()[0]).get('op') == 'ref' and show(strip_casts(ev.store_parts()[1])).endswith('.hdr.item_next'))
+        flags = set()
+        for ev in fn.events():
+            if ev.k == 'decl' and (ev.t or '') in ('u1', 'bool', '_Bool'):
+                flags.add(ev.name)
+        for w_ in writes:
+            extra = []
+            for bid, lab in control_deps_transitive(fn, w_.block.id):
+                b_ = fn.blocks[bid]
+                c_ = strip_casts(b_.cond) if b_.cond is not None else None
+                if c_ is None or bid in loop_heads:
+                    continue
+                names = set(m.get('name') for m in walk(c_) if m.get('op') == 'ref' and m.get('rk') in ('local', 'param'))
+                if any(m.get('op') == 'call' for m in walk(c_)):
+                    continue        # the seek / read that found the end of the chain
+                if names & (cursors | flags):
+                    continue        # the walk cursor is 0, or the flag a failed read sets
+                if names and names <= copies and all(m.get('field') in ('offset', None) for m in walk(c_) if m.get('op') == 'member'):
+                    continue        # there is a last good chunk
+                extra.append(show(c_))
+            ctx.ob(rule, not extra, fn.name, 'cut of the chain kept in %s depends only on the chain having ended' % name, w_.where(),
+                   'guarded by the end of the walk and the presence of a last good chunk' if not extra else
+                   'the link is cut only when %s holds as well: when it does not (the last entry of an FSR index is 0 for a block that was left out) the last complete pair keeps an item_next past the cut, and the chunks that the repair appends there are read as the continuation of this chain (a signal took over the index of another one and reported more samples than were written)' % ' and '.join(sorted(set(extra))))
+
+
+def repair_omitted_tail_rule(ctx, P, rule):
+    from ..graph import loops
+    fn = P.fn('jls_core_repair_fsr')
+    ctx.saw(fn, 1)
+    def is_entry(e):
+        e = strip_casts(e)
+        return e.get('op') == 'sub' and any(m.get('op') == 'member' and m.get('field') == 'offsets' and m.get('rec') == 'jls_fsr_index_s' for m in walk(e))
+    # the cursor of the walks: the local that receives index entries
+    entry_stores = [ev for ev in fn.stores() if ev.store_parts()[1] is not None and is_entry(ev.store_parts()[1]) and strip_casts(ev.store_parts()[0]).get('op') == 'ref']
+    cursors = set(strip_casts(ev.store_parts()[0])['name'] for ev in entry_stores)
+    if len(cursors) != 1:
+        raise AnalysisBroken('jls_core_repair_fsr: index entries are stored into %s' % sorted(cursors))
+    cur = cursors.pop()
+    lp = loops(fn)
+    def tests_zero(c):
+        c = strip_casts(c) if c is not None else None
+        if c is None:
+            return False
+        for nd in walk(c):
+            if nd.get('op') == 'bin' and nd['o'] in ('==', '!='):
+                l, r = strip_casts(nd['k'][0]), strip_casts(nd['k'][1])
+                for x, y in ((l, r), (r, l)):
+                    if x.get('op') == 'ref' and x.get('name') == cur and const_of(y) == 0:
+                        return True
+        c0 = c
+        while c0.get('op') == 'un' and c0['o'] == '!':
+            c0 = strip_casts(c0['k'][0])
+        return c0.get('op') == 'ref' and c0.get('name') == cur
+    back = []
+    for h, body in lp.items():
+        inner = [ev for ev in entry_stores if ev.block.id in body]
+        if inner and any(tests_zero(fn.blocks[b_].cond) for b_ in body | {h}):
+            back.extend(inner)
+    ctx.ob(rule, bool(back), fn.name, 'descent from a level-1 index skips entries of blocks that were left out', (back[0] if back else entry_stores[0]).where(),
+           'a loop steps back over entries that are 0' if back else
+           'the walk starts at the last entry of the index even when it is 0 (a block that was left out): it then visits no data chunk at all, and the complete blocks that follow the stored pair - chained behind the last stored block - are dropped from the signal')
+    # the id expected behind the block reached by the descent
+    guards = []
+    for b in fn.blocks.values():
+        c = strip_casts(b.cond) if b.cond is not None else None
+        if c is None or c.get('op') != 'bin' or c['o'] not in ('==', '!='):
+            continue
+        l, r = strip_casts(c['k'][0]), strip_casts(c['k'][1])
+        for x, y in ((l, r), (r, l)):
+            if y.get('op') == 'ref' and y.get('rk') == 'local' and x.get('op') == 'ref' and x.get('rk') == 'local' and \
+                    any(e_.k == 'decl' and e_.name == x['name'] and e_.e is not None and any(m.get('field') == 'timestamp' for m in walk(e_.e) if m.get('op') == 'member') for e_ in fn.events()):
+                guards.append((b, y['name']))
+    if not guards:
+        raise AnalysisBroken('jls_core_repair_fsr: no compare of a chunk sample id with the expected id')
+    for b, exp in guards:
+        # values that flow into the expected id (directly or through one local)
+        srcs = []
+        work = [exp]
+        seen = set()
+        while work:
+            v = work.pop()
+            if v in seen:
+                continue
+            seen.add(v)
+            for ev in list(fn.stores()) + [e_ for e_ in fn.events() if e_.k == 'decl' and e_.e is not None]:
+                if ev.k == 'decl':
+                    nm, rhs = ev.name, ev.e
+                else:
+                    l0 = strip_casts(ev.store_parts()[0])
+                    nm, rhs = (l0.get('name') if l0.get('op') == 'ref' else None), ev.store_parts()[1]
+                if nm != v or rhs is None:
+                    continue
+                srcs.append(rhs)
+                for m in walk(rhs):
+                    if m.get('op') == 'ref' and m.get('rk') == 'local':
+                        work.append(m['name'])
+        covered = any(any(m.get('op') == 'member' and m.get('field') == 'timestamp' for m in walk(r_)) and
+                      any(m.get('op') == 'member' and m.get('field') == 'sample_decimate_factor' for m in walk(r_)) for r_ in srcs)
+        ctx.ob(rule, covered, fn.name, 'expected sample id %s accounts for what the stored level-1 pair covers' % exp, fn.where() if not hasattr(b, 'where') else fn.where(),
+               'one of its values is the first id of the summary chunk plus its entries times the decimation' if covered else
+               'the id expected behind the block reached by the descent is always the end of that block: when the index ends in blocks that were left out, the next stored block starts later, is taken for a gap and ends the signal - complete blocks on disk are lost')
